@@ -142,7 +142,7 @@ def build_program(rng, nstmts, real=True):
                     ctx.__exit__(None, None, None)
                     prog.append(["endelse"])
             elif c < 0.3:
-                prefix = rng.choice(["tmp", "x", "<cond>", "tmp_0"])
+                prefix = rng.choice(["tmp", "x", "<cond>", "tmp_0", "i", "j"])
                 name = cb.fresh_var_name(prefix)
                 prog.append(["fresh", prefix])
                 if not name.startswith("<cond>"):
@@ -401,6 +401,8 @@ def fresh_collision(prog, names):
         if c[0] == "stmt":
             k = c[1]
             seen |= set(stmt_vars(k))
+            if k[0] == "assign":
+                seen |= {lv for lv, _, _ in k[4]}      # loop counters are names the user chose, too
         if c[0] == "if":
             seen |= lang.expr_vars(c[1])
     return None
